@@ -46,6 +46,27 @@ fn check(rep: &mut Report, model: &mut Model, cfg: &Cfg, ops: &[Op]) -> bool {
                                 return false;
                             }
                         }
+                        if cfg.layers == (L_ENC | L_COMP) {
+                            // compression over encryption: what lies in the completed (genuine) chunks is what repair of
+                            // the stream cut at the last complete chunk gives (whatever the mode: every chunk there is
+                            // genuine and whole); the bytes of a partial chunk behind them must not make that smaller
+                            let h = parse_header(&b.bytes).unwrap().header_len;
+                            let complete = (len - h) / (CONSTS.chunk + TAG);
+                            let cutb = h + complete * (CONSTS.chunk + TAG);
+                            if cutb < len {
+                                if let Ok(lb) = repair_and_read(&b.bytes[..cutb], cfg, false) {
+                                    for (n, d) in &lb.files {
+                                        let got = rec.files.get(n).cloned().unwrap_or_default();
+                                        if !got.starts_with(d) {
+                                            rep.violation("oracle", "C14/flush-auth", sig("completed-chunks-lost"),
+                                                &format!("{n:?}: {} bytes come out of the {complete} completed chunks alone, authenticated repair of the {len} flushed bytes recovers {}", d.len(), got.len()), case());
+                                            return false;
+                                        }
+                                    }
+                                    rep.count("auth-lower-bound:comp+enc");
+                                }
+                            }
+                        }
                         if cfg.layers == L_ENC {
                             let h = parse_header(&b.bytes).unwrap().header_len;
                             let complete = (len - h) / (CONSTS.chunk + TAG);
